@@ -116,7 +116,7 @@ RunResult execute_plan(const Plan &p, int armed, Stats &st) {
         for (size_t ti = 0; ti < p.tasks.size() && !a.viol.set; ti++) {
             for (int oi = 0; oi < NOBJ && !a.viol.set; oi++) {
                 PrngObj &o = a.ts[ti]->p[oi];
-                if (!o.m.base) continue;
+                if (!o.m.base || o.nested_involved) continue;   // twins replay one generator's history alone: not meaningful inside a hierarchy
                 // (4) delivered bytes of a short delivery are mixed in
                 for (uint64_t which = 0; which < 2 && !a.viol.set; which++)
                 if (o.flip_op >= 0 && o.out_log.size() >= o.flip_out_off + 16 && (which == 0 || o.flip_k > 1)) {
